@@ -74,6 +74,11 @@ var c17Collide = [][]string{
 	{"plumless", "buckeroo", "hetairas"},
 	{"hetairas", "mentioner", "heliotropes"},
 	{"heliotropes", "neurospora", "mentioner"},
+	// strings that LOOK like numbers / literals (a list's element type is what was written, not what it resembles)
+	{"404", "-1", "007"},
+	{"1", "01", "+1"},
+	{"true", "false", "0"},
+	{"1.0", "1e3", "0x10"},
 }
 
 func c17ListU(u []string, idx []int, strs bool, padFront, padBack int, fillBase int) interface{} {
@@ -172,7 +177,7 @@ func c17(r *rep.Run) {
 		totals = []int{50, 97, 98, 99, 100, 101, 102, 150, 199, 200, 201, 1000}
 		r.SetBudget(1800e9)
 	}
-	r.Rule = "every pair of lists of length <= 3 over a 3-element universe (all duplicates/orders) for int64 and for string elements; each pair unpadded and padded with disjoint filler (front / back / both sides of the core) to every total length in the list around the 100-element switch, with the left and with the right list the longer one; each operand passed as a literal and as a variable (4 forms), optimisations on and off; typed-empty lists of both element types and the empty literal in either position; every element-type mismatch; 8 further string universes whose elements collide under common 32-bit string hashes (lists of length <= 2); every history (depth 3) of 3 contents written in place into ONE list-variable buffer of length 3..256 under `in` and `overlap`. `in`: every probe (universe elements, a filler element, an absent value, wrong-typed probes) against every such list passed as literal, variable and pre-built set. Oracle: map-based set intersection/membership; overlap(A,B) == overlap(B,A); mismatches are errors. non-trivial = evaluations whose two lists total >= 100 elements"
+	r.Rule = "every pair of lists of length <= 3 over a 3-element universe (all duplicates/orders) for int64 and for string elements; each pair unpadded and padded with disjoint filler (front / back / both sides of the core) to every total length in the list around the 100-element switch, with the left and with the right list the longer one; each operand passed as a literal and as a variable (4 forms), optimisations on and off; typed-empty lists of both element types and the empty literal in either position; every element-type mismatch; 8 further string universes whose elements collide under common 32-bit string hashes (lists of length <= 2); every history (depth 3) of 3 contents written in place into ONE list-variable buffer of length 3..256 under `in` and `overlap`. 4 universes of strings that look like numbers/literals; the list also as a named constant of the caller's config (compiled twice, the caller's list must stay intact). `in`: every probe (universe elements, a filler element, an absent value, wrong-typed probes) against every such list passed as literal, variable and pre-built set. Oracle: map-based set intersection/membership; overlap(A,B) == overlap(B,A); mismatches are errors. non-trivial = evaluations whose two lists total >= 100 elements"
 	r.Assume = []string{"universe of 3 elements of very different shape (1/64/70-byte strings; 1, min, max) + disjoint filler of mixed lengths, magnitudes and signs; other element values are not explored"}
 	r.Cov["total_lengths"] = totals
 	lists := listsOver(3, maxLen)
@@ -266,11 +271,11 @@ func c17(r *rep.Run) {
 		// in: every probe against list A (unpadded and padded variants of A)
 		var probes []interface{}
 		if j.u != nil {
-			probes = []interface{}{j.u[0], j.u[1], j.u[2], "zz"}
+			probes = []interface{}{j.u[0], j.u[1], j.u[2], "zz", "", int64(404), int64(1)}
 		} else if j.strs {
-			probes = []interface{}{c17StrU[0], c17StrU[1], c17StrU[2], c17FillS(1), c17FillS(3), "zz", strings.Repeat("b", 63), int64(1)}
+			probes = []interface{}{c17StrU[0], c17StrU[1], c17StrU[2], c17FillS(1), c17FillS(3), "zz", "", strings.Repeat("b", 63), int64(1)}
 		} else {
-			probes = []interface{}{c17IntU[0], c17IntU[1], c17IntU[2], c17FillI(1), c17FillI(2), int64(0), "a"}
+			probes = []interface{}{c17IntU[0], c17IntU[1], c17IntU[2], c17FillI(1), c17FillI(2), int64(0), "a", ""}
 		}
 		if len(j.b) == 0 { // once per list A
 			for _, pad := range []int{0, 97, 150} {
@@ -305,6 +310,37 @@ func c17(r *rep.Run) {
 								d := map[string]interface{}{"probe": fmt.Sprint(p), "list": trunc(c17Lit(la), 300), "probe_as_variable": f[0], "list_as_variable": f[1], "config": o.String()}
 								if !drive.SameOutcome(got, refOut(want, werr)) {
 									r.Violate("in-wrong", fmt.Sprint(p, pad), sprintf("(in %v L) = %s but membership is %v/%v", p, got, want, werr), d)
+								}
+							}
+						}
+						// the list as a NAMED CONSTANT of the caller's config, compiled twice
+						// with the same config: the caller's list must stay what it was
+						{
+							pristine := c17Lit(la)
+							for _, o := range opts {
+								cfg := c.h.NewConfig(c.vars, o)
+								cfg.ConstantMap["LST"] = la
+								for round := 0; round < 2; round++ {
+									e, err := c.h.Compile(cfg, "(in va LST)", 0)
+									atomic.AddInt64(c.n, 1)
+									var got drive.Out
+									if err != nil {
+										got = drive.Out{Err: err}
+									} else {
+										f := drive.NewFetcher(c.h, c.vars, o)
+										f.Vals[0] = p
+										c.h.Reset()
+										got = c.h.Eval(e, f)
+									}
+									want, werr := ref.Builtin("in", []interface{}{p, la})
+									d := map[string]interface{}{"probe": fmt.Sprint(p), "list": trunc(pristine, 300), "config": o.String(), "compilation": round + 1}
+									if now := c17Lit(la); now != pristine {
+										r.Violate("constant-list-modified", fmt.Sprint(pad, j.strs), sprintf("compiling (in va LST) rewrote the caller's list constant: %s", trunc(now, 200)), d)
+										break
+									}
+									if !drive.SameOutcome(got, refOut(want, werr)) {
+										r.Violate("in-wrong", fmt.Sprint("const", p, pad), sprintf("(in %v LST) with the list as a named constant = %s but membership is %v/%v (compilation #%d with this config)", p, got, want, werr, round+1), d)
+									}
 								}
 							}
 						}
